@@ -4,13 +4,13 @@ CONSTANTS
   Ids = {"a", "b"}
   Clients = {c1}
   Readers = {}
-  Shapes <- ShapesC
+  Shapes <- ShapesA
   Safe = FALSE
   WithCallbacks = FALSE
   MinMemMerge = 2
   KeepN = 1
   TruncateOnPersist = TRUE
-  MaxInv = 3
+  MaxInv = 2
   MaxCrash = 0
   MaxMerges = 1
   MaxFaults = 0
